@@ -79,8 +79,10 @@ def webvtt_settings(c):
     c.ensure("line_is_top_edge_plus_top_padding", "line" in d and c.truth(tol(d["line"], y + pb)))
     if fit:
         fitted = c.call(Layout.fit_to_screen, L, compare=False).extent      # proved in C13
-        width = c.exact(fitted.horizontal.value)
-        c.ensure("size_is_width_minus_horizontal_paddings", "size" in d and c.truth(tol(d["size"], width - ps - pe)))
+        c.ensure("a_fitted_layout_has_an_extent", fitted is not None)
+        if fitted is not None:
+            width = c.exact(fitted.horizontal.value)
+            c.ensure("size_is_width_minus_horizontal_paddings", "size" in d and c.truth(tol(d["size"], width - ps - pe)))
     elif has_ext:
         width = c.exact(ext.horizontal.value)
         c.ensure("size_is_width_minus_horizontal_paddings", "size" in d and c.truth(tol(d["size"], width - ps - pe)))
@@ -141,17 +143,17 @@ def layout_attributes(c):
         def payloads(s):
             return [a.payload for a in SStr.lift(s).atoms if isinstance(a, Opaque)]
         if shape[0]:
-            c.ensure("origin_is_x_then_y", payloads(r["tts:origin"]) == [L.origin.x, L.origin.y])
+            c.ensure("origin_is_x_then_y", payloads(r.get("tts:origin", "")) == [L.origin.x, L.origin.y])
         if shape[1]:
-            c.ensure("extent_is_width_then_height", payloads(r["tts:extent"]) == [L.extent.horizontal, L.extent.vertical])
+            c.ensure("extent_is_width_then_height", payloads(r.get("tts:extent", "")) == [L.extent.horizontal, L.extent.vertical])
         if shape[2]:
             p = L.padding
-            c.ensure("padding_in_ttml_order_before_end_after_start", payloads(r["tts:padding"]) == [p.before, p.end, p.after, p.start])
+            c.ensure("padding_in_ttml_order_before_end_after_start", payloads(r.get("tts:padding", "")) == [p.before, p.end, p.after, p.start])
     else:
         if shape[2]:
             p = L.padding
             c.ensure("padding_in_ttml_order_before_end_after_start",
-                     r["tts:padding"] == " ".join(str(s) for s in (p.before, p.end, p.after, p.start)))
+                     r.get("tts:padding") == " ".join(str(s) for s in (p.before, p.end, p.after, p.start)))
 
 
 # ------------------------------------------------------------------------------------ bounded part
